@@ -153,7 +153,21 @@ func c03Case(c *fw.Case) {
 		}
 		return s[:i] + string(c) + s[i+1:]
 	}
+	caseSwap := func(s string) string {
+		for tries := 0; tries < 50; tries++ {
+			i := 6 + r.Intn(len(s)-8)
+			c := s[i]
+			if c >= 'a' && c <= 'z' {
+				return s[:i] + string(c-32) + s[i+1:]
+			}
+			if c >= 'A' && c <= 'Z' {
+				return s[:i] + string(c+32) + s[i+1:]
+			}
+		}
+		return s
+	}
 	mods := []mod{
+		{"suffixData.deltaHash-letter-case-swapped", func(q map[string]interface{}) { sd(q)["deltaHash"] = caseSwap(fmt.Sprint(sd(q)["deltaHash"])) }},
 		{"suffixData.deltaHash-one-char", func(q map[string]interface{}) { sd(q)["deltaHash"] = oneChar(fmt.Sprint(sd(q)["deltaHash"])) }},
 		{"suffixData.recoveryCommitment-one-char", func(q map[string]interface{}) { sd(q)["recoveryCommitment"] = oneChar(fmt.Sprint(sd(q)["recoveryCommitment"])) }},
 		{"suffixData.recoveryCommitment-other-key", func(q map[string]interface{}) { sd(q)["recoveryCommitment"] = gen.NewKey(r, gen.Ed25519).Commitment(code) }},
@@ -201,6 +215,13 @@ func c03Case(c *fw.Case) {
 		if err == nil {
 			verdict = "new-did"
 			c.Count("modification-new-did", 1)
+			// outside batch mode an accepted create's delta must hash to the recorded delta hash (harness codec)
+			if dh, _ := sd(q)["deltaHash"].(string); true {
+				if dm, derr := oracle.DecodeEncodedMultihash(dh); derr != nil || dh != oracle.MustModelHash(dm.Code, q["delta"]) {
+					c.Failf("accepted-with-unbound-delta:"+m.name, map[string]interface{}{"modified": string(raw), "modification": m.name}, "modified create (%s) accepted although its delta does not hash to suffixData.deltaHash", m.name)
+					continue
+				}
+			}
 			if op3.UniqueSuffix == op.UniqueSuffix {
 				c.Failf("modification-keeps-did:"+m.name, map[string]interface{}{"request": string(b.Request), "modified": string(raw), "modification": m.name, "did": op.ID}, "modified create (%s) is accepted with the same DID", m.name)
 				continue
